@@ -43,7 +43,7 @@ func (Engine) Generate(property, scenario string, seed uint64, tier string) *sim
 		// acquire-begin / acquire-finish split one acquisition at the point
 		// where the lock file is open and the lock call has not been made, so
 		// that other processes act in between.
-		kind := []string{"acquire", "release", "kill", "exit", "journal", "spawn", "acquire-begin", "acquire-finish"}[r.Weighted([]int{30, 25, 8, 4, 12, 8, 12, 12})]
+		kind := []string{"acquire", "release", "kill", "exit", "journal", "spawn", "acquire-begin", "acquire-finish", "gc"}[r.Weighted([]int{30, 25, 8, 4, 12, 8, 12, 12, 12})]
 		p.Ops = append(p.Ops, simkit.Op{Actor: fmt.Sprintf("p%d", r.Intn(n)), Kind: kind})
 	}
 	return p
@@ -207,6 +207,13 @@ func (Engine) Execute(t *testing.T, plan *simkit.Plan) *simkit.Result {
 					s.Violate("C28", "helper-died", "journal", "%s: %v %s", op.Actor, err, reply)
 					return
 				}
+			case "gc":
+				if reply, err := p.send("gc"); err != nil || reply != "collected" {
+					s.Violate("C28", "helper-died", "gc", "%s: %v %s", op.Actor, err, reply)
+					return
+				}
+				s.Logf(op.Actor, "garbage collection")
+				s.Count("fault.garbage_collection", 1)
 			case "kill":
 				p.cmd.Process.Signal(syscall.SIGKILL)
 				reap(p)
